@@ -57,6 +57,7 @@ class Prob:
         k = max(1, n)
         self.patM = [[rng.random() < dens for _ in range(n)] for _ in range(k)]
         self.upper = rng.random() < 0.5
+        self.lower_fill = rng.choice([0.0, 0.0, 7.5])
         self.x0 = [rv(rng) for _ in range(n)]
         self.A = self.G = None
         self.new_P()
@@ -122,6 +123,9 @@ class Prob:
         r = len(M)
         c = self.n
         if not self.sparse:
+            if a == "P" and self.upper:
+                # row-major storage with only the upper triangle filled (or garbage below): only the upper part may be read
+                return f"dmat {a} {r} {c} " + " ".join(fnum(M[i][j] if i <= j else self.lower_fill) for i in range(r) for j in range(c))
             return f"dmat {a} {r} {c} " + " ".join(fnum(v) for row in M for v in row)
         pat = {"P": self.patP, "A": self.patA, "G": self.patG}[a]
         ptr, idx, val = [0], [], []
@@ -132,6 +136,29 @@ class Prob:
                     val.append(fnum(M[i][j]))
             ptr.append(len(idx))
         return f"smat {a} {r} {c} {len(idx)} " + " ".join(map(str, ptr)) + (" " + " ".join(idx) + " " + " ".join(val) if idx else "")
+
+    def bad_pattern_line(self, a):
+        """CSC matrix `a` (A or G) with the same dimensions and the same number of stored entries but one entry moved to another
+        row of its column: update() must reject it (pattern mismatch). None if the pattern leaves no room."""
+        pat = {"A": self.patA, "G": self.patG}[a]
+        M = getattr(self, a)
+        r, c = len(M), self.n
+        for j in range(c):
+            rows = [i for i in range(r) if pat[i][j]]
+            free = [i for i in range(r) if not pat[i][j]]
+            if rows and free:
+                pat2 = [list(row) for row in pat]
+                pat2[rows[0]][j] = False
+                pat2[free[0]][j] = True
+                ptr, idx, val = [0], [], []
+                for jj in range(c):
+                    for i in range(r):
+                        if pat2[i][jj]:
+                            idx.append(str(i))
+                            val.append(fnum(M[i][jj] if pat[i][jj] else 1.25))
+                    ptr.append(len(idx))
+                return f"smat {a} {r} {c} {len(idx)} " + " ".join(map(str, ptr)) + " " + " ".join(idx) + " " + " ".join(val)
+        return None
 
     def lines_for(self, names):
         out = []
@@ -226,6 +253,26 @@ def gen_random(rng, api, kkt, idx):
     return case
 
 
+def gen_inplace(rng, api, kkt, idx):
+    """sparse interfaces, caller reuses its buffers in place: setup; solve; update(M) with the right pattern; solve; then the same
+    buffers are overwritten with a matrix of another pattern (same sizes) and passed to update() again -> must be rejected exactly as
+    when it arrives in fresh buffers (mode A vs mode C)"""
+    n = rng.choice([3, 4, 5, 6])
+    pr = Prob(rng, n, rng.randint(1, min(2, n - 1)), rng.randint(2, 4), True)
+    case = new_case(f"inpl_{api}_{kkt}_{idx}", api, kkt, [], {"kind": "inplace-reuse", "n": pr.n, "p": pr.p, "m": pr.m})
+    op_setup(case, pr, rng)
+    op_solve(case)
+    for a in rng.sample(["A", "G"], 2):
+        op_update(case, pr, [a], 1)
+        op_solve(case)
+        bad = pr.bad_pattern_line(a)
+        if bad:
+            case["lines"] += [bad, f"update 1 {a}"]
+            case["ops"].append(("update", (a,), 1))
+            op_solve(case)
+    return case
+
+
 def gen_cases(chk, rng):
     cases = []
     nrand = 220 if chk.thorough() else 24
@@ -235,6 +282,9 @@ def gen_cases(chk, rng):
             cases.append(gen_enum(rng, api, kkt, k))
         for k in range(nrand):
             cases.append(gen_random(rng, api, kkt, k))
+        if api in (3, 5):
+            for k in range(12 if chk.thorough() else 3):
+                cases.append(gen_inplace(rng, api, kkt, k))
     return cases
 
 
@@ -367,7 +417,7 @@ def run(replay=None):
     if replay:
         chk.log(f"replay {replay}: {len(cases)} case(s)")
     byname = {c["name"]: c for c in cases}
-    items = [(c, md) for c in cases for md in "AB"]
+    items = [(c, md) for c in cases for md in "AB"] + [(c, "C") for c in cases if c["meta"]["kind"] == "inplace-reuse"]
     outs, crashes = run_all(exe, items)
 
     found = {}
@@ -446,6 +496,33 @@ def run(replay=None):
                    f"history, output '{key}', token {pos}\n  A: {la[:400]}\n  B: {lb[:400]}\n"
                    f"expected: bitwise identical (the solver works on its own copies)\nlast setup/update before it: {last[0]}({', '.join(last[1])})\n{head}"
                    "history (up to the differing op):\n" + history_text(c, oi) + "\n\n" + inp)
+    # (2b) caller reuses its buffers in place (mode C) vs fresh buffers (mode A): bitwise identical, in particular a matrix of
+    # another pattern is rejected in both
+    n_inplace = 0
+    for c in cases:
+        if c["meta"]["kind"] != "inplace-reuse":
+            continue
+        a, cc_ = outs.get(c["name"] + "#A"), outs.get(c["name"] + "#C")
+        cfg = c["meta"]["api"]
+        if crashes.get(c["name"] + "#C") or a is None or cc_ is None:
+            if crashes.get(c["name"] + "#C") and not crashes.get(c["name"] + "#A"):
+                report(f"impl:alias:{cfg}:inplace-crash", len(c["lines"]) * 1000, f"the process died only when the caller reuses its buffers in place: "
+                       f"{crashes.get(c['name'] + '#C')[:2000]}\ninput:\n{case_text(c, 'C')}end of input\n")
+            continue
+        n_inplace += 1
+        a2 = [l for l in a if not l.startswith("modified ")]
+        c2 = [l for l in cc_ if not l.startswith("modified ")]
+        if a2 != c2:
+            li = next((i for i, (x, y) in enumerate(zip(a2, c2)) if x != y), min(len(a2), len(c2)))
+            la = a2[li] if li < len(a2) else "<missing>"
+            lc = c2[li] if li < len(c2) else "<missing>"
+            oi = op_index_of_line(c, a2, min(li, len(a2) - 1))
+            report(f"impl:alias:{cfg}:inplace:{(la.split() or ['?'])[0]}", len(c["lines"]) * 1000,
+                   "results depend on WHERE the caller's arrays live: the same history with every argument in a fresh block (mode A) and with "
+                   f"the caller overwriting and re-passing the same blocks (mode C) differs at op #{oi + 1}\n  A: {la[:300]}\n  C: {lc[:300]}\n"
+                   "expected: bitwise identical (the solver keeps no address of, and nothing derived from the old content of, caller memory)\n"
+                   "history:\n" + history_text(c, oi) + f"\n\ninput:\n{case_text(c, 'C')}end of input\n")
+    chk.cov["inplace_reuse_cases_compared"] = n_inplace
     if errlines:
         chk.violation("harness:error-lines", f"{errlines} 'error' lines in the harness output (generator/protocol inconsistency)", True)
 
